@@ -103,7 +103,7 @@ func c10Edits() []c10Edit {
 func TestVerifC10Config(t *testing.T) {
 	rep := report.New("C10 configuration errors (real binary)")
 	defer rep.Write()
-	rep.Rule = "real binary built from the current tree, run as `mosproxy router -c file`: the good YAML must start (\"router is up and running\"), each of the error variants (unknown key at every nesting level, misspelled key, unknown/duplicate/missing tags, unknown protocol/scheme, missing file) must exit non-zero with an error message and without panic/goroutine dump; distinct = distinct configurations"
+	rep.Rule = "real binary built from the current tree, run as `mosproxy router -c file`: the good YAML must start (\"router is up and running\"), each of the error variants (unknown key at every nesting level, misspelled key, unknown/duplicate/missing tags, unknown protocol/scheme, missing file) and every rule shape {domain none/known/unknown} x reject {0,3} x forward {none/known/unknown} x reverse that names an unknown tag must exit non-zero with an error message and without panic/goroutine dump; distinct = distinct configurations"
 	if sh, _ := report.Shard(); sh != 0 {
 		rep.Eval("idle-shard")
 		rep.Eval("idle-shard2")
@@ -181,6 +181,49 @@ func TestVerifC10Config(t *testing.T) {
 			rep.Violate("C10:config:no-error-exit:"+e.name, fmt.Sprintf("exit status %d for %s: %s", exit, e.name, stderr), nil)
 		case !strings.Contains(stderr, "\"level\":\"fatal\"") && !strings.Contains(stderr, "rror"):
 			rep.Violate("C10:config:no-error-message:"+e.name, "no error reported: "+stderr, nil)
+		}
+	}
+	// every rule shape x every place a tag can be wrong: a rule naming an unknown domain set or upstream must be
+	// rejected whatever its other fields are (e.g. a reject rule that also has a forward tag)
+	for _, dom := range []string{"", "d1", "nosuchset"} {
+		for _, rej := range []int{0, 3} {
+			for _, fwd := range []string{"", "u1", "nosuchupstream"} {
+				for _, rev := range []bool{false, true} {
+					rule := "  - "
+					var fs []string
+					if dom != "" {
+						fs = append(fs, "domain: "+dom)
+					}
+					if rej != 0 {
+						fs = append(fs, fmt.Sprintf("reject: %d", rej))
+					}
+					if fwd != "" {
+						fs = append(fs, "forward: "+fwd)
+					}
+					if rev {
+						fs = append(fs, "reverse: true")
+					}
+					if len(fs) == 0 {
+						fs = []string{"reject: 0"}
+					}
+					rule += strings.Join(fs, "\n    ")
+					name := fmt.Sprintf("rule{domain=%q reject=%d forward=%q reverse=%v}", dom, rej, fwd, rev)
+					yaml := strings.Replace(good, "  - forward: u2", rule+"\n  - forward: u2", 1)
+					bad := dom == "nosuchset" || fwd == "nosuchupstream"
+					exit, stderr, up := run("rule", yaml)
+					rep.Eval(name)
+					switch {
+					case strings.Contains(stderr, "panic:") || strings.Contains(stderr, "goroutine "):
+						rep.Violate("C10:config:panic:rule", name+":\n"+stderr, nil)
+					case bad && up:
+						rep.Violate("C10:config:accepted:unknown-tag-in-"+name, "the router started although "+name+" names an unknown tag", nil)
+					case bad && exit == 0:
+						rep.Violate("C10:config:no-error-exit:"+name, stderr, nil)
+					case !bad && !up:
+						rep.Violate("C10:config:good-config-rejected:"+name, fmt.Sprintf("exit %d: %s", exit, stderr), nil)
+					}
+				}
+			}
 		}
 	}
 	rep.Sample(map[string]any{"edit": "unknown-key:servers[].tcp", "yaml": "tcp: {max_concurrent_queries: 10, bogus_key: 1}", "expect": "exit != 0, error message, no panic"})
